@@ -558,7 +558,7 @@ let emit tier cfgs seed =
       "index_of", "etl::meta::index_of_v<char, etl::meta::list<int, char, long>> == 1 && etl::meta::index_of_v<int, etl::meta::list<int, char, long>> == 0" ];
   (* ---- a fixed family of classes related by inheritance (the generated classes have no bases):
           public, private, virtual, ambiguous (diamond without virtual) and indirect bases *)
-  line [ "H"; "namespace zb { struct B { int b; }; struct D : B { }; struct P : private B { }; struct V : virtual B { }; struct A1 : B { }; struct A2 : B { }; struct M : A1, A2 { }; struct I : D { }; struct Poly { virtual ~Poly(); }; struct PD : Poly { }; union U { int u; }; struct Conv { operator B() const; operator int() const noexcept; }; struct Expl { explicit Expl(B const&); Expl(int) noexcept; }; struct NC { NC(); NC(NC&); NC& operator=(NC&); }; struct MO { MO(MO&&) noexcept; MO& operator=(MO&&); }; struct PDt { private: ~PDt(); }; struct TDt { ~TDt() noexcept(false); }; struct WL { }; struct WR { }; bool operator==(WL, WR); void operator!=(WR, WL) = delete; struct NB { struct R2 { }; R2 operator==(NB) const; }; struct EQ { bool operator==(EQ const&) const; }; struct CA { CA(CA const&); CA(CA&&); CA& operator=(CA&); CA& operator=(CA&&); CA& operator=(CA const&&); CA& operator=(CA const&) = delete; }; struct Ex2 { explicit Ex2() = default; }; struct Agg { Ex2 e; }; struct SA { }; struct SB { }; void swap(SA&, SB&) noexcept; void swap(SB&, SA&); struct TD { TD() noexcept(false); }; }" ];
+  line [ "H"; "namespace zb { struct B { int b; }; struct D : B { }; struct P : private B { }; struct V : virtual B { }; struct A1 : B { }; struct A2 : B { }; struct M : A1, A2 { }; struct I : D { }; struct Poly { virtual ~Poly(); }; struct PD : Poly { }; union U { int u; }; struct Conv { operator B() const; operator int() const noexcept; }; struct Expl { explicit Expl(B const&); Expl(int) noexcept; }; struct NC { NC(); NC(NC&); NC& operator=(NC&); }; struct MO { MO(MO&&) noexcept; MO& operator=(MO&&); }; struct PDt { private: ~PDt(); }; struct TDt { ~TDt() noexcept(false); }; struct WL { }; struct WR { }; bool operator==(WL, WR); void operator!=(WR, WL) = delete; struct NB { struct R2 { }; R2 operator==(NB) const; }; struct EQ { bool operator==(EQ const&) const; }; struct CA { CA(CA const&); CA(CA&&); CA& operator=(CA&); CA& operator=(CA&&); CA& operator=(CA const&&); CA& operator=(CA const&) = delete; }; struct Ex2 { explicit Ex2() = default; }; struct Agg { Ex2 e; }; struct Fun { int operator()(int) const; void operator()(char*) &&; long operator()(int, int) noexcept; }; struct SA { }; struct SB { }; void swap(SA&, SB&) noexcept; void swap(SB&, SA&); struct TD { TD() noexcept(false); }; struct NM2 { NM2(NM2&&) = delete; }; }" ];
   let fam = [ "zb::B"; "zb::D"; "zb::P"; "zb::V"; "zb::A1"; "zb::M"; "zb::I"; "zb::Poly"; "zb::PD"; "zb::U"; "zb::Conv"; "zb::Expl"; "zb::NC"; "zb::MO"; "zb::PDt"; "zb::TDt"; "zb::WL"; "zb::WR"; "zb::NB"; "zb::EQ"; "zb::CA"; "zb::Agg"; "zb::SA"; "zb::SB"; "zb::TD";
               "zb::D const"; "zb::B volatile"; "int"; "void" ] in
   List.iter (fun x -> List.iter (fun y ->
@@ -640,6 +640,8 @@ let emit tier cfgs seed =
       "is_constant_evaluated", "etl::is_constant_evaluated()";
       "invoke_result member pointers", "z::invoke_result_agrees<int (zb::B::*)(int), zb::B&, int> && z::invoke_result_agrees<int (zb::B::*)(int), zb::B*, int> && z::invoke_result_agrees<int (zb::B::*)(int), zb::D&, long> && z::invoke_result_agrees<int (zb::B::*)(int), zb::B const&, int> && z::invoke_result_agrees<int (zb::B::*)(int) const, zb::B const&, int> && z::invoke_result_agrees<int (zb::B::*)(int) &&, zb::B&, int> && z::invoke_result_agrees<int (zb::B::*)(int) &&, zb::B, int> && z::invoke_result_agrees<int zb::B::*, zb::B&> && z::invoke_result_agrees<int zb::B::*, zb::D*> && z::invoke_result_agrees<int zb::B::*, zb::B const> && z::invoke_result_agrees<int zb::B::*, zb::B&, int> && z::invoke_result_agrees<int zb::B::*, int> && z::invoke_result_agrees<int (zb::B::*)(int), zb::P&, int> && z::invoke_result_agrees<int (zb::B::*)(int) noexcept, zb::I*, char>";
       "invoke with reference_wrapper", "std::is_same_v<etl::invoke_result_t<int zb::B::*, etl::reference_wrapper<zb::B>>, std::invoke_result_t<int zb::B::*, std::reference_wrapper<zb::B>>> && std::is_same_v<etl::invoke_result_t<int (zb::B::*)(int), etl::reference_wrapper<zb::D>, int>, std::invoke_result_t<int (zb::B::*)(int), std::reference_wrapper<zb::D>, int>> && std::is_same_v<etl::invoke_result_t<int zb::B::*, etl::reference_wrapper<zb::B const>>, std::invoke_result_t<int zb::B::*, std::reference_wrapper<zb::B const>>> && etl::is_invocable_v<int zb::B::*, etl::reference_wrapper<zb::B>> && etl::is_reference_wrapper_v<etl::reference_wrapper<int>> && std::is_same_v<etl::unwrap_reference_t<etl::reference_wrapper<int>>, int&> && std::is_same_v<etl::unwrap_ref_decay_t<etl::reference_wrapper<int> const&>, int&>";
+      "functors", "z::invoke_result_agrees<zb::Fun, int> && z::invoke_result_agrees<zb::Fun&, int> && z::invoke_result_agrees<zb::Fun const&, int> && z::invoke_result_agrees<zb::Fun, char*> && z::invoke_result_agrees<zb::Fun&, char*> && z::invoke_result_agrees<zb::Fun const, int, int> && z::invoke_result_agrees<zb::Fun&, int, int> && z::invoke_result_agrees<zb::Fun, void*> && z::invoke_result_agrees<zb::Fun> && etl::is_invocable_v<zb::Fun&, char*> == std::is_invocable_v<zb::Fun&, char*> && etl::is_invocable_v<zb::Fun, char*> == std::is_invocable_v<zb::Fun, char*> && etl::is_invocable_r_v<short, zb::Fun const&, int> == std::is_invocable_r_v<short, zb::Fun const&, int> && etl::is_invocable_r_v<char*, zb::Fun const&, int> == std::is_invocable_r_v<char*, zb::Fun const&, int> && etl::invocable<zb::Fun&, int, int> == std::invocable<zb::Fun&, int, int> && etl::predicate<zb::Fun const&, int> == std::predicate<zb::Fun const&, int> && etl::predicate<zb::Fun, char*> == std::predicate<zb::Fun, char*> && etl::relation<zb::Fun&, int, int> == std::relation<zb::Fun&, int, int>";
+      "array construction and swap", "etl::is_constructible_v<int[2], int, int> == std::is_constructible_v<int[2], int, int> && etl::is_nothrow_constructible_v<int[2], int, int> == std::is_nothrow_constructible_v<int[2], int, int> && etl::is_constructible_v<int[2]> == std::is_constructible_v<int[2]> && etl::is_nothrow_constructible_v<zb::TD[2]> == std::is_nothrow_constructible_v<zb::TD[2]> && etl::is_swappable_with_v<int (&)[2], int (&)[2]> == std::is_swappable_with_v<int (&)[2], int (&)[2]> && etl::is_swappable_with_v<int (&)[2], int (&)[3]> == std::is_swappable_with_v<int (&)[2], int (&)[3]> && etl::is_swappable_with_v<int (&)[2], long (&)[2]> == std::is_swappable_with_v<int (&)[2], long (&)[2]> && etl::is_nothrow_swappable_v<zb::MO[2]> == std::is_nothrow_swappable_v<zb::MO[2]> && etl::is_swappable_v<zb::NM2[2]> == std::is_swappable_v<zb::NM2[2]> && etl::swappable<zb::NM2[2]> == std::swappable<zb::NM2[2]> && etl::is_swappable_with_v<int&, long&> == std::is_swappable_with_v<int&, long&> && etl::is_swappable_with_v<int, int> == std::is_swappable_with_v<int, int>";
       "is_invocable member pointers", "etl::is_invocable_v<int (zb::B::*)(int), zb::B&, int> == std::is_invocable_v<int (zb::B::*)(int), zb::B&, int> && etl::is_invocable_v<int (zb::B::*)(int), zb::B const&, int> == std::is_invocable_v<int (zb::B::*)(int), zb::B const&, int> && etl::is_invocable_v<int zb::B::*, zb::D*> == std::is_invocable_v<int zb::B::*, zb::D*> && etl::is_invocable_v<int zb::B::*, zb::M&> == std::is_invocable_v<int zb::B::*, zb::M&> && etl::is_invocable_r_v<long, int zb::B::*, zb::B&> == std::is_invocable_r_v<long, int zb::B::*, zb::B&> && etl::is_invocable_r_v<int&, int zb::B::*, zb::B&> == std::is_invocable_r_v<int&, int zb::B::*, zb::B&> && etl::is_invocable_r_v<int&, int zb::B::*, zb::B> == std::is_invocable_r_v<int&, int zb::B::*, zb::B>";
       "byte", "etl::to_integer<int>(etl::byte{5} << 2) == std::to_integer<int>(std::byte{5} << 2) && etl::to_integer<unsigned>(etl::byte{0xF0} >> 3) == std::to_integer<unsigned>(std::byte{0xF0} >> 3) && etl::to_integer<int>(etl::byte{0x81} << 1) == std::to_integer<int>(std::byte{0x81} << 1) && etl::to_integer<int>(etl::byte{0xA5} | etl::byte{0x0F}) == std::to_integer<int>(std::byte{0xA5} | std::byte{0x0F}) && etl::to_integer<int>(etl::byte{0xA5} & etl::byte{0x0F}) == std::to_integer<int>(std::byte{0xA5} & std::byte{0x0F}) && etl::to_integer<int>(etl::byte{0xA5} ^ etl::byte{0xFF}) == std::to_integer<int>(std::byte{0xA5} ^ std::byte{0xFF}) && etl::to_integer<int>(~etl::byte{0xA5}) == std::to_integer<int>(~std::byte{0xA5}) && etl::to_integer<signed char>(etl::byte{0xFF}) == std::to_integer<signed char>(std::byte{0xFF}) && sizeof(etl::byte) == 1";
       "numeric_limits primary template", "!etl::numeric_limits<int*>::is_specialized && etl::numeric_limits<int*>::digits == 0 && !etl::numeric_limits<zb::B>::is_specialized && !etl::numeric_limits<zb::B>::is_signed && etl::numeric_limits<zb::B>::radix == 0 && etl::numeric_limits<int*>::max() == nullptr && etl::numeric_limits<int const volatile>::max() == std::numeric_limits<int const volatile>::max() && std::is_same_v<decltype(etl::numeric_limits<short const>::min()), short> && etl::numeric_limits<zb::B>::round_style == etl::round_toward_zero && etl::numeric_limits<zb::B>::has_denorm == etl::denorm_absent";
